@@ -96,7 +96,8 @@ def main():
                       kind_free_text="Lean 4 model and theorems; Python differential harness driving `lake env lean --run Driver.lean`")],
         checks=checks,
         not_applicable=na,
-        notes="25 genuine defects of the pinned tree were repaired by separate `fix:` commits in /repo (see KNOWN_FINDINGS.txt); "
+        notes=str(sum(1 for l in open(os.path.join(ROOT, "KNOWN_FINDINGS.txt")) if l.startswith("fixed:"))) +
+              " genuine defects of the pinned tree were repaired by separate `fix:` commits in /repo (see KNOWN_FINDINGS.txt); "
               "no known: entries remain. Exit codes: 0 held, 1 VIOLATION line, 2 infrastructure.",
     )
     json.dump(m, open(os.path.join(ROOT, "MANIFEST.json"), "w"), indent=1)
